@@ -5,7 +5,7 @@ Three kinds of case:
        the driver to un-played routines whose scripted bodies yield numbers
        and other values, return, raise, raise YieldAndReset / AlwaysYield /
        StopStream, run nested routines and try to pause/stop/reset
-       themselves; checked op by op against a sequential model, together
+       themselves or, from a nested routine, a routine that is running them; checked op by op against a sequential model, together
        with the restoration of the library's current thread.
  sync  RT world under faults: routines on clocks wait on Conditions and
        FlowVars while the driver, user threads and other routines signal,
@@ -133,6 +133,10 @@ def gen_seq(tp, tier):
                 steps.append(['stop_stream'])
             elif r < 22 and i + 1 < n:
                 steps.append(['nest', i + 1 + tp.draw(n - i - 1)])
+            elif r < 23 and i > 0:
+                # on the routine that (directly or not) is running this one
+                steps.append(['anc', tp.choice(['pause', 'stop', 'reset']),
+                              tp.draw(3)])
             else:
                 steps.append(['self', tp.choice(['pause', 'stop', 'reset'])])
         routines.append({'gen': gen, 'inval': bool(tp.draw(2)),
@@ -284,6 +288,11 @@ class SeqModel:
                         raise
                 elif k == 'self':
                     self.self_log.append((r, s[1]))
+                elif k == 'anc':
+                    anc = self.stack[:-1]
+                    if anc:
+                        self.self_log.append(
+                            (anc[-1 - s[2] % len(anc)], s[1]))
         finally:
             self.stack.pop()
 
@@ -351,15 +360,27 @@ def run_seq(case):
                 raise sstm.StopStream
             elif k == 'nest':
                 robj[s[1]].next()
-            elif k == 'self':
+            elif k in ('self', 'anc'):
+                j = i
+                if k == 'anc':
+                    anc = []
+                    t = me.parent
+                    while t is not None and t is not main.main_tt:
+                        anc.append(t)
+                        t = t.parent
+                    if not anc:
+                        return
+                    anc.reverse()
+                    me = anc[-1 - s[2] % len(anc)]
+                    j = index_of(me)
                 try:
                     getattr(me, s[1])()
-                    self_log.append((i, s[1], None, me.state.name))
+                    self_log.append((j, s[1], None, me.state.name))
                 except sstm.RoutineException:
-                    self_log.append((i, s[1], 'RoutineException',
+                    self_log.append((j, s[1], 'RoutineException',
                                      me.state.name))
                 except Exception as e:
-                    self_log.append((i, s[1], type(e).__name__,
+                    self_log.append((j, s[1], type(e).__name__,
                                      me.state.name))
 
         def run_steps():
@@ -460,10 +481,12 @@ def run_seq(case):
                      f'{tt_log[:6]}, model {model.tt_log[:6]}')
         for (i, name, exc, state), (mi, mname) in zip(self_log,
                                                       model.self_log):
-            if exc != 'RoutineException' or state != 'Running':
+            if exc != 'RoutineException' or state != 'Running' \
+                    or (i, name) != (mi, mname):
                 viol.add('C11-2', f'self-{name}-not-refused',
-                         f'routine {i} calling {name}() on itself: raised '
-                         f'{exc}, state {state}')
+                         f'{name}() on routine {i} (model {mi}, {mname}) '
+                         f'from inside its own run: raised {exc}, state '
+                         f'{state}')
         if len(self_log) != len(model.self_log):
             viol.add('C11-2', 'self-op-count',
                      f'{len(self_log)} self operations ran, model '
